@@ -265,17 +265,21 @@ pub struct RandGen {
     emitted: usize,
 }
 
+/// all strong handles whose target is alive (an unreachable object may legitimately keep a
+/// handle to a destroyed one after an elided unadopt)
 fn all_hrefs(w: &World) -> Vec<(HRef, ObjId)> {
     let mut v = vec![];
     for s in 0..w.handles.len() {
-        if w.handles[s].is_some() {
+        if w.handles[s].is_some() && w.objs[w.htarget[s] as usize].state == St::Alive {
             v.push((HRef::P(s), w.htarget[s]));
         }
     }
     for (oi, o) in w.objs.iter().enumerate() {
         if o.state == St::Alive {
             for (k, &t) in o.held.iter().enumerate() {
-                v.push((HRef::S(oi as ObjId, k), t));
+                if w.objs[t as usize].state == St::Alive {
+                    v.push((HRef::S(oi as ObjId, k), t));
+                }
             }
         }
     }
